@@ -155,5 +155,25 @@ c12.append(job("derived-arch-syscall-x86","auparse","VH_Derived",["C12/"],{"what
 C["C12"]={"jobs":c12,"assumptions":PARSE_ASSUME+["the kernel's encoding rule (audit_log_untrustedstring) is re-implemented in the harness: double quotes iff all bytes in 0x21..0x7e and not '\"', else upper-case hex",
    "values obey the property's exclusions (no leading/trailing quote character, no trailing backslash) and are not one of the placeholders","name tables themselves are the oracle for the name cases (C20 checks the tables)"],
    "outside":["values longer than 4-5 bytes","correctness of net.IP.String (summarised as an injective rendering)"]}
+
+RULE_ASSUME=["GOARCH=amd64 (rule encoding is architecture dependent)","os.Stat and os/user lookups are stubs with fixed answers for the names the harness uses (no file system, no user database)"]
+BASES=["watch","syscall-two-strings","all-syscalls-compare","user-msgtype","64-fields"]
+c13=[]
+for i,bn in enumerate(BASES):
+    c13.append(job(f"decode-{bn}","rule","VH_DecodeHostile",["C13/"],{"base":i,"budget_is_violation":1},Q,alloc_cap=4096,loop_cap=3000,
+        bounds=f"valid rule '{bn}' with one of 16 header words (flags, action, field_count, buflen, mask[0], mask[63], fields/values/fieldflags[0,1,63], values[2]) replaced by a symbolic 32-bit value; allocation cap 4096 elements, unwinding cap 3000"))
+for (a,b,name) in [(2,3,"fieldcount-x-buflen"),(10,11,"values1-x-values2"),(6,9,"field0-x-value0"),(10,3,"values1-x-buflen")]:
+    c13.append(job(f"decode-pair-{name}","rule","VH_DecodeHostile",["C13/"],{"base":1,"word1":a,"word2":b,"budget_is_violation":1},Q,alloc_cap=4096,loop_cap=3000,bounds=f"syscall rule with two header words symbolic at once: {name}"))
+c13.append(job("decode-short","rule","VH_DecodeShort",["C13/"],{"budget_is_violation":1},Q,alloc_cap=4096,loop_cap=3000,bounds="buffers of length 0,1,4,1039,1040,1041,1044 with the scalar header words and the tail symbolic"))
+for c,name in enumerate(["syscall-digits","65-filters","garbage-strings","nil-and-odd","filter-type","big-syscall-numbers"]):
+    c13.append(job("build-"+name,"rule","VH_BuildHostile",["C13/"],{"case":c},Q,bounds={"syscall-digits":"syscall given as 0..5 symbolic decimal digits, optionally negative","65-filters":"65 filters + key","garbage-strings":"list/action/field/operator/value replaced by 0..2 symbolic ASCII bytes","nil-and-odd":"nil rule, nil pointers of each type, foreign Rule implementation, DeleteAllRule","filter-type":"symbolic FilterType byte","big-syscall-numbers":"2047, 2048, 2049, 2^31-1, 2^31, 2^32-1, 2^32, -1, 10^20-1"}[name]))
+c13.append(job("flags-any-0-3","rule/flags","VH_ParseAnyString",["C13/"],{"maxlen":3},Q,bounds="flags.Parse (then Build) on every ASCII string of 0..3 symbolic bytes"))
+c13.append(job("flags-any-0-5","rule/flags","VH_ParseAnyString",["C13/"],{"maxlen":5},T,bounds="flags.Parse on every ASCII string of 0..5 symbolic bytes"))
+TEMPL=["-a","-A","-F","-C","-S","-k","-p","-w","-D","-a always,exit -F","-a always,exit -S","-w /zzverif/x -p","-a exit,always -C"]
+for i,t in enumerate(TEMPL):
+    c13.append(job(f"flags-hole-{i}","rule/flags","VH_ParseHole",["C13/"],{"template":i,"maxlen":3},Q,bounds=f"'{t} <hole>' with a hole of 0..3 symbolic ASCII bytes, then Build"))
+    c13.append(job(f"flags-hole5-{i}","rule/flags","VH_ParseHole",["C13/"],{"template":i,"maxlen":5},T,bounds=f"'{t} <hole>' with a hole of 0..5 symbolic ASCII bytes"))
+C["C13"]={"jobs":c13,"assumptions":RULE_ASSUME+["an unwinding failure (loop cap) or an allocation beyond the cap on a path whose bound comes from an input number is reported as the violation"],
+   "outside":["more than two header words symbolic at once","flags.Parse side: see the flags jobs"]}
 json.dump(C,open('/verif/checks.json','w'),indent=1)
 print({k:len(v["jobs"]) for k,v in C.items()})
